@@ -626,6 +626,32 @@ func TestHandlers(t *testing.T) {
 			check("at the end")
 			ev.Case(fmt.Sprintf("handlers/%s/%d", s.name, counts[si]), counts[si] > logging.BufferSize, "http-handlers")
 		}
+		// logging is set up again (new buffers, new loggers): the handlers serve what is written from now on
+		logging.InitLogging("development", t.TempDir())
+		for _, s := range []struct {
+			name    string
+			lg      *zap.Logger
+			handler func(http.ResponseWriter, *http.Request)
+		}{{"L", logging.Logger, logging.LogWriter}, {"N", logging.N2n, logging.N2NLogWriter}, {"M", logging.MemUsage, logging.MemLogWriter}} {
+			var want []string
+			for i := 0; i < 5; i++ {
+				msg := fmt.Sprintf("hm-%d-%s-end", 900000+i, s.name)
+				s.lg.With(zap.Int("again", i)).Info(msg)
+				want = append([]string{msg}, want...)
+			}
+			rec := httptest.NewRecorder()
+			s.handler(rec, httptest.NewRequest("GET", "/?detail=1", nil))
+			var got []string
+			for _, l := range strings.Split(rec.Body.String(), "\n") {
+				if m := re.FindString(l); m != "" {
+					got = append(got, m)
+				}
+			}
+			if d := diff(got, want); d != "" {
+				t.Fatalf("handler of stream %s after logging was initialised a second time (5 entries written since): %s", s.name, d)
+			}
+			ev.Case("handlers-after-second-init/"+s.name, true, "http-handlers-after-reinitialisation")
+		}
 	})
 }
 
